@@ -16,7 +16,8 @@ Model M13 (part 2) — the merge-walk of `collect_and_prepare` and the pack book
   `remove_dir`/`remove_file` is called exactly then), per entry hidden by `skip_current_dir` (`skipped`), per destination
   entry consumed as the counterpart of a node (`matched`: `next_dst = next_entry(..)` in the `Equal` arm) and per call of
   `process_node(path, node, exists)` (`node`).  In the `Equal` arm with mismatching types the code calls
-  `process_existing` first and then `process_node(.., exists = true)` — kept as it is.
+  `process_existing` first and then `process_node(.., exists = false)` (as repaired: the unrepaired code passed `true`,
+  so a directory node whose place was taken by a file was never created — known_findings.d/C14.json).
 * `Stats`/`statsOf` — `RestoreStats` as counted by `process_existing` / `process_node` (`addRes` = what `add_file` answers).
 
 ### RestorePlan (`add_file` → `r: BTreeMap<(PackId, BlobLocation), SmallVec<FileLocation>>`, `to_packs`, the `PackInfo`
@@ -62,6 +63,7 @@ inductive Ev (P : Type) where
   | additional (p : P) (isDir : Bool) (removed : Bool)
   | skipped (p : P)
   | node (p : P) (k : NKind) (exist : Bool)
+  deriving DecidableEq, Repr
 
 /-- `(node.is_dir() && !dst.is_dir()) || (node.is_file() && !dst.is_file()) || node.is_special()` -/
 def mismatch (n : NKind) (d : DKind) : Bool :=
@@ -102,7 +104,7 @@ def walk {P : Type} (c : Cfg P) : List (DEnt P) → List (NEnt P) → List (Ev P
     | .lt => existingEvs c d ds ++ walk c (skipSplit c d ds).2 (n :: ns)
     | .eq =>
       if mismatch n.kind d.kind then
-        existingEvs c d ds ++ Ev.node n.path n.kind true :: walk c (skipSplit c d ds).2 ns
+        existingEvs c d ds ++ Ev.node n.path n.kind false :: walk c (skipSplit c d ds).2 ns
       else Ev.matched d.path :: Ev.node n.path n.kind true :: walk c ds ns
     | .gt => Ev.node n.path n.kind false :: walk c (d :: ds) ns
 termination_by ds ns => ds.length + ns.length
